@@ -82,6 +82,19 @@ def gen(rng, tier):
                 d = Fraction(nd["demand"])
                 if abs(d) > cap:
                     nd["demand"] = fs(cap if d > 0 else -cap)
+            if k % 5 == 1:
+                # vehicles leave the depot PARTLY loaded and the pool is empty: every customer is served through a dummy node that
+                # has to top the vehicle up / unload it by exactly the shortfall / the excess (demands stay within the capacity)
+                cap = Fraction(rng.choice([4, 6, 8]))
+                init = Fraction(rng.randint(1, int(cap) - 1))
+                case["spec"]["cap"], case["spec"]["init"] = fs(cap), fs(init)
+                for nd in case["spec"]["nodes"][1:]:
+                    if rng.random() < 0.5:
+                        nd["demand"] = fs(-Fraction(rng.randint(int(init) + 1, int(cap))))       # more than is on board
+                    else:
+                        nd["demand"] = fs(Fraction(rng.randint(int(cap - init) + 1, int(cap))))    # more than still fits
+                case["routes"] = []
+                case["partly_loaded"] = True
         yield case
 
 
